@@ -50,6 +50,9 @@ def enumerate_faults(world, opts, facts):
                         out.append(_cellfault("unknown_name", "unknown_holder", name, tt, i, f, "Nobody"))
                 # timestamp without time zone
                 out.append(_cellfault("no_timezone", "no_timezone", name, tt, i, "timestamp", "STRIP_TZ"))
+                # the same naive timestamp in the other spellings a spreadsheet export produces
+                for variant in ("iso_t", "iso_t_frac", "space_frac", "iso_t_frac6", "us_style", "compact"):
+                    out.append(_cellfault("no_timezone", "no_timezone_" + variant, name, tt, i, "timestamp", "NAIVE:" + variant))
                 # asset differs from sheet
                 for other in configured:
                     if other != name:
@@ -196,7 +199,7 @@ def enumerate_faults(world, opts, facts):
     return out
 
 
-def enumerate_oddities(world, opts):
+def enumerate_oddities(world, opts, facts=None):
     """Inputs of debatable validity (tolerated by some spreadsheet importers, rejected by others). They are NOT C12 faults - whether
     RP2 accepts or rejects them is not asserted anywhere - but they drive tolerance / repair / fallback code, which is where a
     program starts writing things it should not. Used by C18 (confinement must hold either way) and as C17 history runs."""
@@ -220,6 +223,13 @@ def enumerate_oddities(world, opts):
     for kind in ("config_crlf", "config_bom", "config_inline_comments", "config_uppercase_keys", "config_default_section", "config_trailing_garbage_line",
                  "extra_sheet_with_table", "sheet_name_padded"):
         out.append({"class": "oddity", "kind": kind})
+    if facts:
+        fc = facts[opts["country"]]
+        # half-supported generation languages: mentioned somewhere in the tree (a locale directory, a template) but not shipped completely
+        for lang in fc.get("mentioned_languages", []):
+            if lang not in fc["languages"]:
+                out.append({"class": "oddity", "kind": "lang_partially_shipped", "value": lang})
+        out.append({"class": "oddity", "kind": "lang_with_territory", "value": (fc["languages"] or ["en"])[0] + "_ZZ"})
     return out
 
 
@@ -279,6 +289,12 @@ def apply_fault(world, opts, fault):
         v = fault["value"]
         if v == "STRIP_TZ":
             v = _strip_tz(r["timestamp"])
+        elif isinstance(v, str) and v.startswith("NAIVE:"):
+            local = W.parse_ts(r["timestamp"]).replace(tzinfo=None)
+            v = {"iso_t": local.strftime("%Y-%m-%dT%H:%M:%S"), "iso_t_frac": local.strftime("%Y-%m-%dT%H:%M:%S") + ".250",
+                 "space_frac": local.strftime("%Y-%m-%d %H:%M:%S") + ".5", "iso_t_frac6": local.strftime("%Y-%m-%dT%H:%M:%S") + ".000000",
+                 "us_style": "%d/%d/%d %d:%02d:%02d" % (local.month, local.day, local.year, local.hour, local.minute, local.second),
+                 "compact": local.strftime("%Y%m%dT%H%M%S")}[v[6:]]
         elif v == "TZ_ABBREV":
             v = W.parse_ts(r["timestamp"]).astimezone(W.UTC).strftime("%Y-%m-%d %H:%M:%S") + " UTC"
         elif v == "DATE_ONLY":
@@ -293,6 +309,8 @@ def apply_fault(world, opts, fault):
             grid_ops.append(fault)
         elif kind == "extra_sheet_with_table":
             world["extra_sheets"] = list(world.get("extra_sheets") or []) + ["UnlistedTable"]
+        elif kind in ("lang_partially_shipped", "lang_with_territory"):
+            opts["lang"] = fault["value"]
         elif kind == "sheet_name_padded":
             world["sheets"][0]["name"] = world["sheets"][0]["name"] + " "
         else:
